@@ -1121,6 +1121,169 @@ func TestVerifC10Resend(t *testing.T) {
 }
 
 
+// TestVerifC10Chain: a completion callback may itself hand the next request to the client
+// (a serial driver: "send case i+1 when case i is complete"). With one request in flight and a
+// client that is back at reading its input, that must neither deadlock nor lose a callback.
+func TestVerifC10Chain(t *testing.T) {
+	rep := verifkit.Begin("C10", "chain", "healthy in-process client; chains of 2-8 requests where the success callback of link i sends link i+1 synchronously (on the runner's reader goroutine), 1-2 chains after each other plus one ordinary send, then closeSend + waitForResponses; oracle: every send accepted, every link's callback fires exactly once with its own answer, the client is running before closeSend, waitForResponses returns nil, all within a generous progress bound; distinct = (chain lengths)")
+	defer rep.Write()
+	n := verifkit.Scale(120, 2500)
+	for h := 0; h < n; h++ {
+		rng := verifkit.Stream("c10chain", h)
+		impl := func(ctx context.Context, _ []string, in io.ReadCloser, out, _ io.WriteCloser) error {
+			dead := make(chan struct{})
+			defer close(dead)
+			go func() {
+				select {
+				case <-ctx.Done():
+					_ = in.Close()
+					_ = out.Close()
+				case <-dead:
+				}
+			}()
+			for {
+				var pre [4]byte
+				if _, err := io.ReadFull(in, pre[:]); err != nil {
+					return nil
+				}
+				buf := make([]byte, binary.BigEndian.Uint32(pre[:]))
+				if _, err := io.ReadFull(in, buf); err != nil {
+					return nil
+				}
+				req := &conformancev1.ClientCompatRequest{}
+				if err := proto.Unmarshal(buf, req); err != nil {
+					return err
+				}
+				if _, err := out.Write(vfFrameResp(req.TestName, "answer-for-"+req.TestName)); err != nil {
+					return nil
+				}
+			}
+		}
+		ctx, cancel := context.WithCancel(context.Background())
+		runner, err := runClient(ctx, runInProcess([]string{"healthy-client"}, impl))
+		if err != nil {
+			cancel()
+			rep.Inconcl("runClient: " + err.Error())
+			continue
+		}
+		lens := []int{2 + rng.Intn(7)}
+		if rng.Bool() {
+			lens = append(lens, 2+rng.Intn(7))
+		}
+		rep.Eval(1)
+		rep.DistinctKey(lens)
+		var mu sync.Mutex
+		fired := map[string]int{}
+		problems := []string{}
+		note := func(f string, a ...any) {
+			mu.Lock()
+			problems = append(problems, fmt.Sprintf(f, a...))
+			mu.Unlock()
+		}
+		w := map[string]any{"chain_lengths": lens}
+		stuck := false
+		total := 0
+		for ci, l := range lens {
+			done := make(chan struct{})
+			var link func(i int)
+			link = func(i int) {
+				name := fmt.Sprintf("Chain/%d/%d/link-%d", h, ci, i)
+				err := runner.sendRequest(&conformancev1.ClientCompatRequest{TestName: name}, func(got string, resp *conformancev1.ClientCompatResponse, err error) {
+					mu.Lock()
+					fired[name]++
+					mu.Unlock()
+					if err != nil {
+						note("%s: callback with error %v", name, err)
+						close(done)
+						return
+					}
+					if got != name || resp.GetError().GetMessage() != "answer-for-"+name {
+						note("%s: callback got (%q, %q)", name, got, resp.GetError().GetMessage())
+					}
+					if i+1 < l {
+						link(i + 1) // the next request, from inside the callback
+					} else {
+						close(done)
+					}
+				})
+				if err != nil {
+					note("%s: send refused: %v", name, err)
+					close(done)
+				}
+			}
+			total += l
+			go link(0)
+			select {
+			case <-done:
+			case <-time.After(60 * time.Second):
+				stuck = true
+			}
+			if stuck {
+				break
+			}
+		}
+		if stuck {
+			mu.Lock()
+			w["callbacks_fired"], w["problems"] = fmt.Sprint(fired), problems
+			mu.Unlock()
+			rep.Violation("mux/chain/deadlock", "a chain of requests, each sent from the completion callback of the previous one to a healthy client, made no progress within the bound", w)
+			cancel()
+			break // every further history would wait out the bound as well
+		}
+		// one more ordinary send
+		last := make(chan struct{})
+		lname := fmt.Sprintf("Chain/%d/after", h)
+		if err := runner.sendRequest(&conformancev1.ClientCompatRequest{TestName: lname}, func(string, *conformancev1.ClientCompatResponse, error) {
+			mu.Lock()
+			fired[lname]++
+			mu.Unlock()
+			close(last)
+		}); err != nil {
+			note("%s: send refused: %v", lname, err)
+		} else {
+			select {
+			case <-last:
+			case <-time.After(60 * time.Second):
+				note("%s: no callback", lname)
+			}
+		}
+		running := runner.isRunning()
+		runner.closeSend()
+		waited := make(chan error, 1)
+		go func() { waited <- runner.waitForResponses() }()
+		var werr error
+		select {
+		case werr = <-waited:
+		case <-time.After(60 * time.Second):
+			note("waitForResponses did not return")
+		}
+		runner.stop()
+		cancel()
+		mu.Lock()
+		for name, c := range fired {
+			if c != 1 {
+				problems = append(problems, fmt.Sprintf("%s: %d callbacks", name, c))
+			}
+		}
+		if len(fired) != total+1 {
+			problems = append(problems, fmt.Sprintf("%d of %d requests completed", len(fired), total+1))
+		}
+		if !running || werr != nil {
+			problems = append(problems, fmt.Sprintf("isRunning=%v before close, waitForResponses=%v", running, werr))
+		}
+		if len(problems) > 0 {
+			sort.Strings(problems)
+			w["problems"] = problems
+			rep.Violation("mux/chain/not-exactly-once", problems[0], w)
+		} else {
+			rep.Count("chained_links_ok", total)
+		}
+		mu.Unlock()
+	}
+	rep.Sample(map[string]any{"chain": "callback(link-0) -> sendRequest(link-1) -> ...", "expect": "all links complete exactly once"})
+	rep.RequireMin("chained_links_ok", 300)
+}
+
 // ---- a quiet spell longer than the runner's read timeout ----
 
 type vfIdleResult struct {
